@@ -29,7 +29,7 @@ TIERS = {
     "thorough": dict(maxdim=3, rich=True, faults=2, dist_faults=1, mut=1000, rec=4000),
 }
 FAULT_NAMES = {"DropField", "WrongType", "LenMismatch", "NegDim", "DupIndex", "IndexOutOfRange", "LengthTooSmall",
-               "Truncate", "EmptyFile", "DropLine", "DropToken", "ExtraToken", "NonNumeric"}
+               "Truncate", "EmptyFile", "BlankLine", "DropLine", "DropToken", "ExtraToken", "NonNumeric"}
 CFG_FAULTS = {"DropField", "WrongType", "UnknownName", "ParamLen", "ParamElemType", "ChildCount", "Truncate"}
 ALL_TYPES = {"Float64", "Float32", "Int", "Int8", "Int16", "Int32", "Int64", "Real64", "Real32",
              "ConstFloat64", "ConstFloat32", "ConstInt", "ConstInt8", "ConstInt16", "ConstInt32", "ConstInt64"}
